@@ -374,6 +374,8 @@ class HedTag:
         if not value:
             stripped_value = units
             unit_entry = self.default_unit
+            if unit_entry is None:
+                return None
             unit = unit_entry.name
         else:
             stripped_value, unit, unit_entry = HedTag._get_tag_units_portion(self.extension, tag_unit_classes)
